@@ -34,11 +34,14 @@ def main():
     ap = argparse.ArgumentParser()
     ap.add_argument('--only', default='')
     ap.add_argument('--tier', default='quick')
+    ap.add_argument('--mutants-only', action='store_true')
     a = ap.parse_args()
     only = set(filter(None, a.only.split(',')))
     resf = ROOT / 'tools' / 'selfcheck_results.json'
     results = json.loads(resf.read_text()) if resf.exists() else {}
     for pid, patch, kind in patches(only):
+        if a.mutants_only and kind != 'mutant':
+            continue
         sh('git', '-C', '/repo', 'worktree', 'remove', '--force', str(WT))
         sh('git', '-C', '/repo', 'worktree', 'prune')
         r = sh('git', '-C', '/repo', 'worktree', 'add', '-q', '--detach', str(WT), 'HEAD')
